@@ -303,7 +303,19 @@ func c09Large(w *core.W, j int) {
 		pos := g.R.IntN(len(mm.Ar) + 1)
 		mm.Ar = append(mm.Ar[:pos], append([]*model.Rec{opt}, mm.Ar[pos:]...)...)
 	}
-	for len(mm.Wire()) > 64000 {
+	huge := j%10 == 8 // replies of more than 65535 octets uncompressed (a Msg can describe them; 65535 is the budget of a TCP client)
+	if huge {
+		for len(mm.Wire()) < 70000 {
+			for i := 0; i < 200; i++ {
+				if i%(4+j%13) == 0 {
+					g.MakePool(2 + g.R.IntN(3))
+				}
+				mm.Ns = append(mm.Ns, g.Rec(ls[g.R.IntN(len(ls))]))
+			}
+		}
+		w.Count("messages_beyond_64k", 1)
+	}
+	for !huge && len(mm.Wire()) > 64000 {
 		mm.Ar = mm.Ar[len(mm.Ar)/3:] // the OPT stays if it is in the kept part; either way is covered
 		mm.Ns = mm.Ns[:len(mm.Ns)*2/3]
 		mm.An = mm.An[:len(mm.An)*2/3]
@@ -321,7 +333,7 @@ func c09Large(w *core.W, j int) {
 	if len(full) > 16384 {
 		w.Count("messages_over_16384", 1)
 	}
-	set := map[int]bool{len(full) - 1: true, len(full): true, len(full) + 1: true, 65535: true, 16383: true, 16384: true, 16385: true, 17000: true, len(full) - 100: true, len(full) * 3 / 4: true, 512: true}
+	set := map[int]bool{len(full) - 1: true, len(full): true, len(full) + 1: true, 65535: true, 65534: true, 16383: true, 16384: true, 16385: true, 17000: true, len(full) - 100: true, len(full) * 3 / 4: true, 512: true}
 	var sizes []int
 	for s := range set {
 		if s >= 0 && s <= 65535 {
